@@ -197,6 +197,41 @@ def judge_history(ctx, rec):
                       "repeat-reexecutes")
 
 
+def oblivious_expectation(job):
+    """`Oblivious_needed` (Props/C01.lean) replayed on the implementation: a develop-mode build script that
+    depends on stale workspace content makes the incremental result differ from the clean one.  This is the
+    documented meaning of incremental build directories - a labelled expectation, not a finding."""
+    from gen import buildsim as bs
+    base = os.path.join(job["tmp"], "oblivious")
+    shutil.rmtree(base, ignore_errors=True)
+    try:
+        def write(root, src):
+            os.makedirs(os.path.join(root, "recipes"), exist_ok=True)
+            os.makedirs(os.path.join(root, "src"), exist_ok=True)
+            open(os.path.join(root, "config.yaml"), "w").write('{"bobMinimumVersion": "0.24"}')
+            open(os.path.join(root, "src", "a.txt"), "w").write(src)
+            open(os.path.join(root, "recipes", "p0.yaml"), "w").write(json.dumps({
+                "root": True, "checkoutSCM": {"scm": "import", "url": "src", "prune": True},
+                "buildScript": "cat $1/a.txt >> acc\ncp acc m\n", "packageScript": "cp $1/m m\n"}))
+        a, b = bs.Sim(os.path.join(base, "a"), job["repo"]), bs.Sim(os.path.join(base, "b"), job["repo"])
+        write(a.root, "one\n")
+        r1 = a.invoke(True, ["p0"])
+        write(a.root, "two\n")
+        r2 = a.invoke(True, ["p0"])
+        write(b.root, "two\n")
+        r3 = b.invoke(True, ["p0"])
+        if not (r1["rc"] == r2["rc"] == r3["rc"] == 0):
+            return "not-run"
+        sa = bs.snapshot(os.path.join(a.root, "dev/dist/p0/1/workspace"))
+        sb = bs.snapshot(os.path.join(b.root, "dev/dist/p0/1/workspace"))
+        return "confirmed" if sa != sb else "not-confirmed"
+    except bs.OutOfTime:
+        return "not-run"
+    finally:
+        bs.shutdown_servers()
+        shutil.rmtree(base, ignore_errors=True)
+
+
 def oracle(ctx):
     n = ctx.scale(24, 600)
     jobs = _jobs(ctx, n, ctx.scale(5, 12), "hist", share=0.55)
@@ -206,6 +241,9 @@ def oracle(ctx):
         judge_history(ctx, rec)
     done = sum(1 for r in recs if r.get("final"))
     ctx.notes["histories_completed"] = done
+    if ctx.time_left() > 40:
+        ctx.count("oblivious_needed_on_implementation",
+                  oblivious_expectation(dict(repo=ctx.repo, tmp=ctx.tmp)))
     if done == 0:
         ctx.skip("no history completed within the time budget")
 
